@@ -3,8 +3,9 @@
    be mapped to any table pair.  The static verdict is the verified classifier of Model/Races.v evaluated on
    the regenerated table; the dynamic observation is the number of Go race-detector reports (both stacks
    mapped to table entries) that fell into the group during the in-process stress run. *)
-From F2G Require Import Drv.Common Model.Races Model.RaceFindings Proofs.Races gen.Accesses.
-From Coq Require Import String.
+From F2G Require Export Model.Races.
+From F2G Require Import Drv.Common Model.RaceFindings Proofs.Races gen.Accesses.
+From Coq Require Export String.
 Open Scope string_scope.
 Open Scope Z_scope.
 
@@ -38,15 +39,20 @@ Definition Holds (c : case) : Prop :=
   (forall a b, In a table -> In b table -> race a b -> group_of a b <> case_group c)
   /\ c_dyn c = 0 /\ c_mapped c = true.
 
-Lemma static_racy_spec : forall c,
-  static_racy c = true <-> exists a b, In a table /\ In b table /\ race a b /\ group_of a b = case_group c.
+(* stated for an arbitrary table so that no proof step unfolds the generated one *)
+Lemma in_groups_generic : forall t gs g, gs = racy_groups t ->
+  (existsb (group_eqb g) gs = true <-> exists a b, In a t /\ In b t /\ race a b /\ group_of a b = g).
 Proof.
-  intros c. unfold static_racy. rewrite table_racy_groups_eq, existsb_exists. split.
-  - intros [g [Hin He]]. apply group_eqb_eq in He. subst g. apply racy_groups_spec in Hin. exact Hin.
-  - intros H. exists (case_group c). split.
-    + apply racy_groups_spec. exact H.
+  intros t gs g ->. rewrite existsb_exists. split.
+  - intros [h [Hin He]]. apply group_eqb_eq in He. subst h. apply (racy_groups_spec t g) in Hin. exact Hin.
+  - intros H. exists g. split.
+    + apply (racy_groups_spec t g). exact H.
     + apply group_eqb_eq. reflexivity.
 Qed.
+
+Lemma static_racy_spec : forall c,
+  static_racy c = true <-> exists a b, In a table /\ In b table /\ race a b /\ group_of a b = case_group c.
+Proof. intros c. exact (in_groups_generic table table_racy_groups (case_group c) table_racy_groups_eq). Qed.
 
 Lemma holdsb_spec : forall c, holdsb c = true <-> Holds c.
 Proof.
